@@ -445,6 +445,86 @@ func ruleC14R5(r *Run) {
 			r.Check("(*T).Cleanup#append", st.Pos(), okAppend && okRegion, "t.cleanups = append(t.cleanups, f) inside one write-locked region", "the read-append-write of t.cleanups is not inside one write-locked region (lost update between concurrent Cleanup calls)")
 		}
 	}
+	// general: a value stored to a guarded field may depend on loads of guarded fields of the same T only if
+	// those loads are in the same critical section as the store (no stale read-modify-write)
+	G := map[string]bool{}
+	for _, f := range guardedT {
+		G[f] = true
+	}
+	lsCache := map[*ssa.Function]map[ssa.Instruction]lockState{}
+	nRMW := 0
+	for _, fa := range p.fieldAccesses("T") {
+		if !G[fa.Field] || fa.Kind != "write" || p.fnName(fa.Fn) == "newT" {
+			continue
+		}
+		st := fa.Instr.(*ssa.Store)
+		base := p.expr(fa.Base)
+		ls, ok := lsCache[fa.Fn]
+		if !ok {
+			ls = p.lockSets(fa.Fn)
+			lsCache[fa.Fn] = ls
+		}
+		lock := "&" + strings.TrimPrefix(base, "&") + ".mu"
+		var deps []*ssa.UnOp
+		seen := map[ssa.Value]bool{}
+		var walk func(v ssa.Value, d int)
+		walk = func(v ssa.Value, d int) {
+			if v == nil || seen[v] || d > 10 {
+				return
+			}
+			seen[v] = true
+			switch x := v.(type) {
+			case *ssa.UnOp:
+				if x.Op == token.MUL {
+					if f2, ok := x.X.(*ssa.FieldAddr); ok && p.fieldAddrOwner(f2) == "T" && G[fieldAddrName(f2)] && p.expr(f2.X) == base {
+						deps = append(deps, x)
+						return
+					}
+					if ia, ok := x.X.(*ssa.IndexAddr); ok {
+						walk(ia.X, d+1)
+						walk(ia.Index, d+1)
+						return
+					}
+					if r := p.resolve(x); r != ssa.Value(x) {
+						walk(r, d+1)
+					}
+					return
+				}
+				walk(x.X, d+1)
+			case *ssa.BinOp:
+				walk(x.X, d+1)
+				walk(x.Y, d+1)
+			case *ssa.Slice:
+				walk(x.X, d+1)
+				walk(x.Low, d+1)
+				walk(x.High, d+1)
+			case *ssa.Call:
+				if _, isB := x.Common().Value.(*ssa.Builtin); isB {
+					for _, a := range x.Common().Args {
+						walk(a, d+1)
+					}
+				}
+			case *ssa.Phi:
+				for _, e := range x.Edges {
+					walk(e, d+1)
+				}
+			case *ssa.Convert:
+				walk(x.X, d+1)
+			case *ssa.ChangeType:
+				walk(x.X, d+1)
+			case *ssa.Extract:
+				walk(x.Tuple, d+1)
+			}
+		}
+		walk(st.Val, 0)
+		for _, ld := range deps {
+			nRMW++
+			ok := ls[ld][lock] == 'W' && ls[st][lock] == 'W' && noUnlockBetween(p, ld, st)
+			r.Check(p.fnName(fa.Fn)+"#rmw."+fa.Field, st.Pos(), ok, "the value stored to "+fa.Field+" depends on "+p.expr(ld)+" read inside the same write-locked region",
+				"read-modify-write of T."+fa.Field+" in "+p.fnName(fa.Fn)+" is not atomic: the stored value depends on "+p.expr(ld)+" read at "+p.pos(ld.Pos())+" outside the critical section of the store (a concurrent Cleanup/Context call in between is lost)")
+		}
+	}
+	r.Floor("read-modify-write dependencies on guarded T fields", nRMW, 2)
 	// Context: store to ctx dominated inside the W region by the re-check ctx == nil
 	if fn := r.MustFn("(*T).Context"); fn != nil {
 		ls := p.lockSets(fn)
